@@ -54,7 +54,7 @@ def funcinit_instances(tier, fam='autoinit', safety=False):
         inc = '#define OBJSIZE %d\n#define OBJALIGN %d\n#define NINIT %d\nstatic const struct { unsigned start, usz, before, width; } LAY[NINIT] = {%s};\n' % (
             size, align, len(inits), ', '.join('{%d, %d, %d, %d}' % t for t in inits))
         L.append(Inst('%s.%s' % (fam, nm), 'h_funcinit.c', {}, units=['type', 'util', 'eval'], overrides=['fatal', 'xmalloc'], native_units=ALLNATIVE, unwind=12,
-                      unwindset=['il_run.0:60', 'il_is_stop.0:14', 'main.0:66', 'main.1:66', 'main.2:66', 'main.3:66', 'main.4:66', 'main.5:66', 'main.6:66', 'zero.0:40'], files={'layout.inc': inc},
+                      unwindset=['il_run.0:60', 'il_is_stop.0:14', 'il_run.1:70', 'main.0:66', 'main.1:66', 'main.2:66', 'main.3:66', 'main.4:66', 'main.5:66', 'main.6:66', 'zero.0:40'], files={'layout.inc': inc},
                       family=fam, safety=safety, timeout=300, bound={'layout': nm, 'values and previous memory': 'symbolic'}))
     return L
 
